@@ -18,7 +18,7 @@ JOBS = {'quick': 4, 'thorough': 16}
 REQUIRED_MONITORS = ('equivariance_generic', 'invariants_axis_free', 'invariants_two_atom', 'distance_one_atom')
 REQUIRED_CLASSES = ('ref:1-atom', 'ref:2-atoms', 'ref:general', 'geometry:linear-z', 'geometry:partial-collinear',
                     'geometry:linear-moved', 'motion:generic', 'motion:translation', 'motion:rotation', 'motion:tiny',
-                    'motion:nearpi', 'motion:large-translation', 'motion:half-turn-axis', 'motion:bond-flip')
+                    'motion:nearpi', 'motion:large-translation', 'motion:half-turn-axis', 'motion:bond-flip', 'motion:near-previous')
 RULE = ('(reference, target, s) as in C01 plus references of 1 and 2 atoms; each mapped on M rigidly moved copies (M = 8 '
         'quick, 64 thorough; rotation classes generic/tiny/near-pi/identity x translations up to +-100 nm). Non-trivial: '
         'the motion is not the identity. distinct = distinct (reference class, geometry, motion class, s class, size bucket)')
@@ -29,7 +29,8 @@ ASSUMPTIONS = [
 ]
 TOL = 1e-8
 _cov = cover.Coverage()
-MOTIONS = ['generic', 'translation', 'rotation', 'tiny', 'nearpi', 'large-translation', 'half-turn-axis', 'bond-flip']
+MOTIONS = ['generic', 'translation', 'rotation', 'tiny', 'nearpi', 'large-translation', 'half-turn-axis', 'bond-flip',
+           'near-previous', 'near-previous']
 
 
 def setup(ctx):
@@ -135,9 +136,21 @@ def run_case(ctx, case):
         if not np.all(np.isfinite(base)):
             ctx.violation(f'map-nonfinite:{rcls}', 'non-finite mapped coordinates', witness=w)
             continue
+        prev = (np.eye(3), np.zeros(3))       # the motion of the configuration mapped by the previous call
         for m in range(M):
             mcls = MOTIONS[int(rng.integers(0, len(MOTIONS)))]
-            R, t = gen_motion(rng, mcls, pos)
+            if mcls == 'near-previous':
+                # almost the configuration of the previous call: a rotation by 1e-7..1e-3 rad about an axis through the
+                # molecule and/or a shift of 1e-7..1e-3 nm on top of the previous motion (a molecule that barely moved)
+                axis = rng.normal(size=3)
+                dR = gen.rodrigues(axis, 10.0 ** rng.uniform(-7, -3)) if rng.random() < 0.7 else np.eye(3)
+                dt = rng.normal(size=3) * 10.0 ** rng.uniform(-7, -3) if rng.random() < 0.7 else np.zeros(3)
+                c = (pos @ prev[0].T + prev[1]).mean(axis=0)
+                R = dR @ prev[0]
+                t = dR @ (prev[1] - c) + c + dt
+            else:
+                R, t = gen_motion(rng, mcls, pos)
+            prev = (R, t)
             pos2 = pos @ R.T + t
             try:
                 if m % 2:
